@@ -820,6 +820,7 @@ static void jjoiner_do(jtrial_t *t)
             VRT_ABT(ABT_thread_cancel(t->th[k]));
     }
     __atomic_store_n(&t->joiner_in, 1, __ATOMIC_SEQ_CST);
+    vrt_call_begin("join/free of the targets of a join trial");
     if (t->api == 0) {
         for (int k = 0; k < t->ntargets; k++) {
             int rc = t->tkind ? ABT_task_join(t->th[k]) : ABT_thread_join(t->th[k]);
@@ -845,6 +846,7 @@ static void jjoiner_do(jtrial_t *t)
         jcheck_after(t, "ABT_thread_free_many", 0);
         vrt_count(c_jmany, 1);
     }
+    vrt_call_end();
     for (int k = 0; k < t->ntargets; k++) {
         VRT_CHECK(t->th[k] == ABT_THREAD_NULL || t->th[k] == ABT_TASK_NULL, "join:handle-not-null",
                   "handle is %p after free", (void *)t->th[k]);
